@@ -891,6 +891,11 @@ func (c *Context) Log10(d, x *Decimal) (Condition, error) {
 		return 0, fmt.Errorf("ln: %w", err)
 	}
 	nc.Precision = c.Precision
+	// The final multiplication produces the result, so it must honor the
+	// caller's exponent range. Its conditions are reported (and trapped) by
+	// c.goError below.
+	nc.MinExponent, nc.MaxExponent = c.MinExponent, c.MaxExponent
+	nc.Traps = 0
 
 	qr, err := nc.Mul(d, &z, decimalInvLn10.get(c.Precision+2))
 	if err != nil {
